@@ -27,8 +27,8 @@ class TracesParser:
             DgbFuncQual.DBG_FUNC_ALL.value: self._feed_single_event,
             DgbFuncQual.DBG_FUNC_NONE.value: self._feed_single_event,
         }
-        self.last_data_newthread = None
-        self.last_data_exec = None
+        self.last_data_newthread = {}
+        self.last_data_exec = {}
         self.handlers = {}
         self.handlers.update(bsd_handlers)
         self.handlers.update(dyld_handlers)
